@@ -308,7 +308,12 @@ class P:
         self.eat("(")
         xs = []
         while not self.at(")"):
-            xs.append(self.expr())
+            x = None if self.at("..") else self.expr()
+            if self.at(".."):
+                self.next()
+                hi = None if (self.at(",") or self.at(")")) else self.expr()
+                x = ("range", x, hi)
+            xs.append(x)
             if not self.accept(","):
                 break
         self.eat(")")
@@ -561,9 +566,9 @@ class Tr:
                 ts.append(t)
             return bs, "(" + ", ".join(atoms) + ")", ("tuple", ts)
         if k == "block":
-            # value block: only a tail (e.g. `unsafe { X }`) or let-prefixed tail
+            # value block: a tail only (e.g. `unsafe { X }`), or statements followed by a tail value
             if e[1]:
-                raise Unsupported("block expression with statements")
+                return self.valued(f, [e], None, env, want)
             return self.ex(f, e[2], env, want)
         if k == "cast":
             b, a, t = self.ex(f, e[1], env, None if e[1][0] != "num" else e[2])
@@ -768,13 +773,44 @@ class Tr:
         bc, ac, _ = self.ex(f, e[1], env, "bool")
         if e[3] is None:
             raise Unsupported("if expression without else")
-        s1, t1 = self.block_val(f, e[2], dict(env), want)
-        s2, t2 = self.block_val(f, e[3], dict(env), want or t1)
-        if t1 != t2:
-            raise Unsupported("if branches of different types")
+        b, a, t = self.valued(f, [e[2], e[3]], ac, env, want)
+        return bc + b, a, t
+
+    def valued(self, f, blocks, cond, env, want):
+        """One value block (`{ stmts; tail }`, cond = None) or the two branches of an `if` expression.
+        Outer variables assigned inside (directly, through a translated callee's `&mut` argument, ...)
+        leave the block together with the value: `do w <- (...) ; let '(v, x1, ..) := w in`."""
+        vs = []
+        for blk in blocks:
+            for v in self.assigned(blk):
+                if v in env and v not in vs:
+                    vs.append(v)
+        codes, ty = [], None
+        for blk in blocks:
+            res = {}
+
+            def fin(env2, blk=blk, res=res):
+                if blk[2] is None:
+                    raise Unsupported("block without value")
+                if blk[2][0] == "macro" and blk[2][1] in ("panic", "unreachable", "todo"):
+                    f.impure = True
+                    return "Panic"
+                b, a, t = self.ex(f, blk[2], env2, want or ty)
+                res["t"] = t
+                out = "(" + ", ".join([a] + [env2[v][0] for v in vs]) + ")" if vs else a
+                return (" ".join(b) + " " if b else "") + "Val %s" % out
+            code = "(" + self.stmts(f, blk[1], 0, dict(env), fin, None) + ")"
+            codes.append(code)
+            if ty is not None and res.get("t") is not None and res["t"] != ty:
+                raise Unsupported("if branches of different types")
+            ty = ty or res.get("t")
         f.impure = True
-        v = f.fresh()
-        return bc + ["do %s <- (if %s then %s else %s) ;" % (v, ac, s1, s2)], v, t1
+        w = f.fresh()
+        expr = codes[0] if cond is None else "(if %s then %s else %s)" % (cond, codes[0], codes[1])
+        if not vs:
+            return ["do %s <- %s ;" % (w, expr)], w, ty
+        val = f.fresh()
+        return ["do %s <- %s ; let '(%s) := %s in" % (w, expr, ", ".join([val] + [env[v][0] for v in vs]), w)], val, ty
 
     def mpat(self, p, ty, env):
         if p[0] == "pvar":
@@ -974,6 +1010,13 @@ class Tr:
             f.impure = True
             v = f.fresh()
             return b + ["do %s <- idx %s %s ;" % (v, env[recv[1]][0], paren(a))], v, "u64"
+        if m == "unwrap_or_default" and recv[0] == "mcall" and recv[2] == "copied" and recv[1][0] == "mcall" \
+                and recv[1][2] == "get" and len(recv[1][3]) == 1:
+            b0, a0, t0 = self.ex(f, recv[1][1], env)
+            if not (isinstance(t0, tuple) and t0[0] in ("slice", "arr")):
+                raise Unsupported(".get on a non-slice")
+            b1, a1, _ = self.ex(f, recv[1][3][0], env, "usize")
+            return b0 + b1, "(get_or_default %s %s)" % (paren(a0), paren(a1)), "u64"
         br, ar, tr_ = self.ex(f, recv, env, want if m.startswith("wrapping_") else None)
         if m == "is_empty" and isinstance(tr_, tuple) and tr_[0] == "slice":
             return br, "(lenZ %s =? 0)" % paren(ar), "bool"
@@ -1440,6 +1483,28 @@ class Tr:
                         " ".join(bl), w, paren(al), cur, iv, st, pat, st, bcode, pat, w, rest(env))
                 return "%s do %s <- for_range %s %s %s (fun %s %s => let '%s := %s in %s) ;\n  let '%s := %s in\n  %s" % (
                     " ".join(bl + bh), w, paren(al), paren(ah), cur, iv, st, pat, st, bcode, pat, w, rest(env))
+            if e[0] == "mcall" and e[2] in ("copy_from_slice", "copy_within", "fill"):
+                recv = e[1]
+                f.impure = True
+                if e[2] == "copy_from_slice" and recv[0] == "var" and len(e[3]) == 1:
+                    b, a, t = self.ex(f, e[3][0], env)
+                    nm = env[recv[1]][0]
+                    return "%s if negb (lenZ %s =? lenZ %s) then Panic else let %s := %s in\n  %s" % (
+                        " ".join(b), nm, paren(a), nm, a, rest(env))
+                if e[2] == "copy_within" and recv[0] == "var" and len(e[3]) == 2 and e[3][0][0] == "range":
+                    nm = env[recv[1]][0]
+                    bl, al = ([], "0") if e[3][0][1] is None else self.ex(f, e[3][0][1], env, "usize")[:2]
+                    bh, ah = ([], "(lenZ %s)" % nm) if e[3][0][2] is None else self.ex(f, e[3][0][2], env, "usize")[:2]
+                    bd, ad, _ = self.ex(f, e[3][1], env, "usize")
+                    return "%s do %s <- copy_within %s %s %s %s ;\n  %s" % (
+                        " ".join(bl + bh + bd), nm, nm, paren(al), paren(ah), paren(ad), rest(env))
+                if e[2] == "fill" and recv[0] == "slice" and recv[1][0] == "var" and recv[3] is None and len(e[3]) == 1:
+                    nm = env[recv[1][1]][0]
+                    bl, al, _ = self.ex(f, recv[2], env, "usize")
+                    bv, av, _ = self.ex(f, e[3][0], env, "u64")
+                    return "%s do %s <- fill_from %s %s %s ;\n  %s" % (
+                        " ".join(bl + bv), nm, nm, paren(al), paren(av), rest(env))
+                raise Unsupported("slice method ." + e[2])
             if e[0] in ("call", "mcall"):            # value discarded
                 b, a, t = self.ex(f, e, env)
                 return "%s\n  %s" % (" ".join(b), rest(env))
@@ -1580,6 +1645,7 @@ TARGETS = [
     ("src/algorithms/div/small.rs", None, "div_nx2", "div_nx2", "g_div_nx2", None),
     # Knuth division (sub-slices as windows: subslice / splice; `continue`)
     ("src/algorithms/div/knuth.rs", None, "div_nxm_normalized", "div_nxm_normalized", "g_div_nxm_normalized", None),
+    ("src/algorithms/div/knuth.rs", None, "div_nxm", "div_nxm", "g_div_nxm", None),
     # Montgomery multiplication: const-generic arrays, nested counted loops (reduce1_carry: model function)
     ("src/algorithms/mul_redc.rs", None, "mul_redc", "mul_redc", "g_mul_redc", None),
     ("src/algorithms/mul_redc.rs", None, "square_redc", "square_redc", "g_square_redc", None),
